@@ -169,11 +169,44 @@ pub fn bspldnev_single_dual2(
 
 /// A piecewise polynomial spline of given order and knot sequence.
 #[derive(Clone, Debug, Deserialize, Serialize)]
+#[serde(try_from = "PPSplineDataModel<T>")]
 pub struct PPSpline<T> {
     k: usize,
     t: Vec<f64>,
     c: Option<Array1<T>>,
     n: usize,
+}
+
+#[derive(Deserialize)]
+struct PPSplineDataModel<T> {
+    k: usize,
+    t: Vec<f64>,
+    c: Option<Array1<T>>,
+    n: usize,
+}
+
+impl<T> std::convert::TryFrom<PPSplineDataModel<T>> for PPSpline<T> {
+    type Error = String;
+
+    fn try_from(model: PPSplineDataModel<T>) -> Result<Self, Self::Error> {
+        if model.t.len() < 2 || !zip(&model.t[1..], &model.t[..(model.t.len() - 1)]).all(|(a, b)| a >= b) {
+            return Err("`t` must be a non-decreasing knot sequence of at least 2 values.".to_string());
+        }
+        if model.k > model.t.len() || model.n != model.t.len() - model.k {
+            return Err("`n` must equal the length of `t` less `k`.".to_string());
+        }
+        if let Some(c) = &model.c {
+            if c.len() != model.n {
+                return Err("`c` must have length `n`.".to_string());
+            }
+        }
+        Ok(PPSpline {
+            k: model.k,
+            t: model.t,
+            c: model.c,
+            n: model.n,
+        })
+    }
 }
 
 impl<T> PPSpline<T> {
